@@ -24,8 +24,10 @@ TSend == /\ e.op = "send"
                   e.wire = Log[t].q.wire /\ e.dest = Log[t].q.dest /\ consumed = 0 /\ nblocks = 0)
          /\ UNCHANGED vars /\ Adv
 
-TBlock == e.op = "block" /\ Block /\ Adv
-TSilence == e.op = "silence" /\ Silence /\ Adv
+\* once the deadline has passed (status = "timeout") the library must not touch the socket again
+AfterDeadline == Check(t, l, "NothingAfterDeadline", status # "timeout")
+TBlock == e.op = "block" /\ AfterDeadline /\ Block /\ Adv
+TSilence == e.op = "silence" /\ AfterDeadline /\ Silence /\ Adv
 
 Acceptable(d) == FromDest(d, cfg) /\ Parses(d, cfg) /\ (Verify(cfg) => RespondsToQuery(d))
 
@@ -33,7 +35,8 @@ TDgram ==
     /\ e.op = "dgram"
     /\ LET d == e.d
            A == AllowedKinds(d, cfg)
-       IN /\ Check(t, l, "ScriptOrder", e.i = consumed + 1 /\ status = "open")
+       IN /\ AfterDeadline
+          /\ Check(t, l, "ScriptOrder", e.i = consumed + 1 /\ status = "open")
           \* Return(d) => Genuine(d): never a spoofed, mismatched or malformed datagram
           /\ Check(t, l, "NeverReturnSpoofed", e.obs = "ret" => FromDest(d, cfg))
           /\ Check(t, l, "NeverReturnMismatched", e.obs = "ret" => (Verify(cfg) => RespondsToQuery(d)))
@@ -56,7 +59,9 @@ Summary == IF cfg.api = "fallback" /\ e.kind = "ret" /\ e.ret.tcp THEN "ret_tcp"
 TEnd ==
     /\ e.op = "end"
     \* termination by return, raise or deadline, nothing else
-    /\ Check(t, l, "EndsByReturnRaiseOrDeadline", status # "open")
+    \* (a deadline that has already been reached may be reported without touching the socket)
+    /\ Check(t, l, "EndsByReturnRaiseOrDeadline",
+             status # "open" \/ (HasDeadline /\ now >= cfg.deadline /\ e.kind = "timeout" /\ e.now = now))
     /\ Check(t, l, "DeadlineIsTimeout", status = "timeout" => (e.kind = "timeout" /\ e.now = now))
     /\ Check(t, l, "NoDeadlineWaits", status = "hang" => e.kind = "hang")
     /\ Check(t, l, "Outcome",
